@@ -149,8 +149,7 @@ def checkRun (port : Nat) (cands : List Entry) (ifs : Option (List Iface)) (evs 
   else match final with
     | .tempAll => if atts.length < n then "fails temporary-failure-before-all-candidates" else "holds"
     | .exitAbort =>
-      if atts.length < n && sessionFailedLast evs && lastNet evs == some .timeout then "fails gave-up-after-greeting-timeout"
-      else "holds"
+      if atts.length < n && sessionFailedLast evs then "fails gave-up-with-candidates-left" else "holds"
     | _ => "holds"
 
 /-- connect_mx() alone: the list is taken in the order given -/
@@ -162,8 +161,7 @@ def checkListRun (port : Nat) (l : List Entry) (evs : List Ev) (final : Final) :
   else match final with
     | .tempAll => if tried.length < (flatAddrs l).length then "fails temporary-failure-before-all-candidates" else "holds"
     | .exitAbort =>
-      if tried.length < (flatAddrs l).length && sessionFailedLast evs && lastNet evs == some .timeout then "fails gave-up-after-greeting-timeout"
-      else "holds"
+      if tried.length < (flatAddrs l).length && sessionFailedLast evs then "fails gave-up-with-candidates-left" else "holds"
     | _ => "holds"
 
 /-- the whole statement for one request: candidates from the specification (route first, else MX),
